@@ -9,6 +9,7 @@ import (
 	"encoding/hex"
 	"fmt"
 	"math/big"
+	"os"
 	"sort"
 	"strings"
 	"time"
@@ -735,7 +736,9 @@ func (w *tssWorld) run() {
 					if op.Mask&(1<<uint(i)) == 0 {
 						continue
 					}
-					if bt := w.buildSig(sid, i, "good", inBlock); bt != nil && bt.expectOK {
+					// a member that already submitted sends its share again (refused as a duplicate); the tx has been
+					// signed with the member's next sequence number, so it must be part of the block either way
+					if bt := w.buildSig(sid, i, "good", inBlock); bt != nil {
 						bt.op = op
 						block = append(block, bt)
 					}
@@ -929,6 +932,14 @@ func (w *tssWorld) observe(block []*builtTx, res *sim.BlockResult) bool {
 	for i, b := range block {
 		tr := res.Resp.TxResults[i]
 		ok := tr.Code == 0
+		if os.Getenv("VERIF_TSS_DEBUG") != "" {
+			fmt.Printf("DEBUG height %d tx %d op %+v sender %s code %d/%s %s\n", h, i, b.op, b.sender, tr.Code, tr.Codespace, tr.Log)
+		}
+		if tr.Codespace == "sdk" && tr.Code == 32 {
+			// the harness's own bookkeeping of account sequences went wrong (an earlier tx of this signer was refused
+			// in the ante handler for a reason the harness did not foresee): nothing can be concluded from this case
+			w.fail(true, "harness", "height %d tx %d (%s by %s): %s", h, i, b.op.K, b.sender, tr.Log)
+		}
 		switch b.op.K {
 		case "des":
 			fits := uint64(len(w.queue[b.sender])+len(b.des)) <= w.maxDE
